@@ -111,7 +111,14 @@ proof fn lemma_header_pos_inv(hdr: Seq<String>, name: Seq<char>)
     }
     decreases hdr.len()
 {
-    if hdr.len() > 0 { lemma_header_pos_inv(hdr.drop_last(), name); }
+    if hdr.len() > 0 {
+        lemma_header_pos_inv(hdr.drop_last(), name);
+        let d = hdr.drop_last();
+        match header_pos(d, name) {
+            Some(c) => { assert(hdr[c] == d[c]); assert forall|m: int| 0 <= m < c implies (#[trigger] hdr[m])@ != name by { assert(hdr[m] == d[m]); } }
+            None => { assert forall|m: int| 0 <= m < d.len() implies (#[trigger] hdr[m])@ != name by { assert(hdr[m] == d[m]); } }
+        }
+    }
 }
 
 // N7 [A-std]: `dst.extend(src.drain(..).map(f))`: f applied to every element of src in order, the results appended to dst; src is left empty
@@ -152,5 +159,287 @@ impl ParsedTestCase {
     /// column c of the header is bound by some input or expected index
     spec fn col_bound(inp: Seq<EntryIndex>, exp: Seq<EntryIndex>, c: int) -> bool {
         (Cols { inp, exp }).col_is_input(c) || (Cols { inp, exp }).col_is_expected(c)
+    }
+}
+
+spec fn input_named(signals: Seq<Signal>, name: Seq<char>) -> bool {
+    exists|i: int| 0 <= i < signals.len() && (#[trigger] signals[i]).name@ == name && sig_is_input(signals[i])
+}
+spec fn output_named(signals: Seq<Signal>, name: Seq<char>) -> bool {
+    exists|i: int| 0 <= i < signals.len() && (#[trigger] signals[i]).name@ == name && sig_is_output(signals[i])
+}
+
+// N7 [A-std]: `s.iter().position(f)` on a slice is emitted as `verif_position_slice(s, f)`
+#[verifier::external_body]
+fn verif_position_slice<T, F: FnMut(&T) -> bool>(xs: &[T], f: F) -> (r: Option<usize>)
+    requires
+        forall|i: int| 0 <= i < xs@.len() ==> call_requires(f, (&xs@[i],)),
+    ensures
+        xs@.len() <= usize::MAX,
+        match r {
+            Some(n) => n < xs@.len() && call_ensures(f, (&xs@[n as int],), true)
+                && (forall|m: int| 0 <= m < n ==> call_ensures(f, (&#[trigger] xs@[m],), false)),
+            None => forall|m: int| 0 <= m < xs@.len() ==> call_ensures(f, (&#[trigger] xs@[m],), false),
+        },
+{
+    xs.iter().position(f)
+}
+
+/// (type anchor for `let mut read_outputs = vec![];`, whose element type rustc infers only later)
+spec fn uv(v: Vec<usize>) -> Seq<usize> { v@ }
+
+/// column c carries the name of one of the recorded C columns
+spec fn c_col_pred(hdr: Seq<String>, ei: Seq<(String, core::ops::Range<usize>)>) -> spec_fn(int) -> bool {
+    |c: int| 0 <= c < hdr.len() && exists|k: int| 0 <= k < ei.len() && (#[trigger] ei[k]).0@ == hdr[c]@
+}
+
+impl ParsedTestCase {
+    /// what the parser establishes about a parsed test (C12 / C11 parser side)
+    spec fn parsed_wf(&self) -> bool {
+        &&& self.signal_spans@.len() == self.signals@.len()
+        // header names are pairwise distinct
+        &&& (forall|i: int, j: int| 0 <= i < j < self.signals@.len() ==> (#[trigger] self.signals@[i])@ != (#[trigger] self.signals@[j])@)
+        // known functions with the right arity, bits width <= 64
+        &&& stmts_wf(self.stmts@)
+        // every data row is as wide as the header and every column holding C is recorded in expected_inputs
+        &&& stmts_shape(self.stmts@, self.signals@.len() as int, c_col_pred(self.signals@, self.expected_inputs@))
+        &&& (forall|k: int| 0 <= k < self.virtual_signals@.len() ==> expr_wf((#[trigger] self.virtual_signals@[k]).0.expr))
+    }
+}
+
+/// the signal list after the declared virtual signals have been appended (C14: 64 bits wide)
+spec fn with_virtuals(signals: Seq<Signal>, vs: Seq<(VirtualSignal, core::ops::Range<usize>)>, all: Seq<Signal>) -> bool {
+    all.len() == signals.len() + vs.len()
+        && (forall|i: int| 0 <= i < signals.len() ==> #[trigger] all[i] == signals[i])
+        && (forall|k: int| 0 <= k < vs.len() ==> (#[trigger] all[signals.len() + k]).name@ == vs[k].0.name@ && all[signals.len() + k].bits == 64
+            && (all[signals.len() + k].typ matches SignalType::Virtual { expr } && *expr.expr == vs[k].0.expr))
+}
+
+// membership facts about the index lists
+proof fn lemma_input_indices_spec(hdr: Seq<String>, signals: Seq<Signal>, n: int)
+    requires 0 <= n <= signals.len()
+    ensures
+        forall|k: int| 0 <= k < input_indices_spec(hdr, signals, n).len() ==> (exists|si: int| 0 <= si < n && sig_is_input(signals[si])
+            && (#[trigger] input_indices_spec(hdr, signals, n)[k]) == index_for(hdr, signals[si].name@, si)),
+        forall|si: int| 0 <= si < n && sig_is_input(#[trigger] signals[si]) ==> (exists|k: int| 0 <= k < input_indices_spec(hdr, signals, n).len()
+            && (#[trigger] input_indices_spec(hdr, signals, n)[k]) == index_for(hdr, signals[si].name@, si)),
+    decreases n
+{
+    if n > 0 {
+        lemma_input_indices_spec(hdr, signals, n - 1);
+        let p = input_indices_spec(hdr, signals, n - 1);
+        let f = input_indices_spec(hdr, signals, n);
+        if sig_is_input(signals[n - 1]) {
+            assert(f == p.push(index_for(hdr, signals[n - 1].name@, n - 1)));
+            assert forall|k: int| 0 <= k < f.len() implies (exists|si: int| 0 <= si < n && sig_is_input(signals[si]) && (#[trigger] f[k]) == index_for(hdr, signals[si].name@, si)) by {
+                if k < p.len() {
+                    let si = choose|si: int| 0 <= si < n - 1 && sig_is_input(signals[si]) && p[k] == index_for(hdr, signals[si].name@, si);
+                    assert(f[k] == p[k]);
+                } else { assert(f[k] == index_for(hdr, signals[n - 1].name@, n - 1)); }
+            }
+            assert forall|si: int| 0 <= si < n && sig_is_input(#[trigger] signals[si]) implies (exists|k: int| 0 <= k < f.len() && (#[trigger] f[k]) == index_for(hdr, signals[si].name@, si)) by {
+                if si < n - 1 {
+                    let k = choose|k: int| 0 <= k < p.len() && (#[trigger] p[k]) == index_for(hdr, signals[si].name@, si);
+                    assert(f[k] == p[k]);
+                } else { assert(f[p.len() as int] == index_for(hdr, signals[si].name@, si)); }
+            }
+        } else {
+            assert(f == p);
+        }
+    }
+}
+
+proof fn lemma_expected_indices_spec(hdr: Seq<String>, signals: Seq<Signal>, n: int)
+    requires 0 <= n <= signals.len()
+    ensures
+        forall|k: int| 0 <= k < expected_indices_spec(hdr, signals, n).len() ==> (exists|si: int| 0 <= si < n && !(signals[si].typ is Input)
+            && (#[trigger] expected_indices_spec(hdr, signals, n)[k]) == index_for(hdr, if signals[si].typ is Bidirectional { signals[si].name@ + "_out"@ } else { signals[si].name@ }, si)),
+    decreases n
+{
+    if n > 0 {
+        lemma_expected_indices_spec(hdr, signals, n - 1);
+        let p = expected_indices_spec(hdr, signals, n - 1);
+        let f = expected_indices_spec(hdr, signals, n);
+        if !(signals[n - 1].typ is Input) {
+            let nm = if signals[n - 1].typ is Bidirectional { signals[n - 1].name@ + "_out"@ } else { signals[n - 1].name@ };
+            assert(f == p.push(index_for(hdr, nm, n - 1)));
+            assert forall|k: int| 0 <= k < f.len() implies (exists|si: int| 0 <= si < n && !(signals[si].typ is Input)
+                && (#[trigger] f[k]) == index_for(hdr, if signals[si].typ is Bidirectional { signals[si].name@ + "_out"@ } else { signals[si].name@ }, si)) by {
+                if k < p.len() {
+                    let si = choose|si: int| 0 <= si < n - 1 && !(signals[si].typ is Input)
+                        && p[k] == index_for(hdr, if signals[si].typ is Bidirectional { signals[si].name@ + "_out"@ } else { signals[si].name@ }, si);
+                    assert(f[k] == p[k]);
+                } else { assert(f[k] == index_for(hdr, nm, n - 1)); }
+            }
+        } else {
+            assert(f == p);
+        }
+    }
+}
+
+impl TestCase {
+    spec fn cols(&self) -> Cols { Cols { inp: self.input_indices@, exp: self.expected_indices@ } }
+    /// what binding establishes about an accepted test (C11), for rows of width w
+    spec fn wf_w(&self, w: int) -> bool {
+        &&& stmts_wf(self.stmts@)
+        &&& stmts_shape(self.stmts@, w, inp_pred(self.cols()))
+        &&& wf_indices_of(self.signals@, self.input_indices@, self.expected_indices@, w)
+        &&& (forall|c: int| !(self.cols().col_is_input(c) && self.cols().col_is_expected(c)))
+        &&& (forall|j: int| 0 <= j < self.read_outputs@.len() ==> (#[trigger] self.read_outputs@[j]) < self.signals@.len())
+        &&& (forall|i: int| 0 <= i < self.signals@.len() ==> ((#[trigger] self.signals@[i]).typ matches SignalType::Virtual { expr } ==> expr_wf(*expr.expr)))
+    }
+}
+
+proof fn lemma_with_virtuals_unique(signals: Seq<Signal>, vs: Seq<(VirtualSignal, core::ops::Range<usize>)>, a: Seq<Signal>, b: Seq<Signal>)
+    requires with_virtuals(signals, vs, a), with_virtuals(signals, vs, b),
+        forall|s1: String, s2: String| #![trigger s1@, s2@] s1@ == s2@ ==> s1 == s2,
+    ensures a == b
+{
+    assert forall|i: int| 0 <= i < a.len() implies a[i] == b[i] by {
+        if i >= signals.len() {
+            let k = i - signals.len();
+            assert(a[signals.len() + k].name@ == b[signals.len() + k].name@);
+            assert(a[i].name == b[i].name);
+        }
+    }
+    assert(a =~= b);
+}
+
+/// C11: the test and the signal list fit together (all = the signal list with the declared virtual signals appended)
+spec fn fits(t: ParsedTestCase, signals: Seq<Signal>, all: Seq<Signal>) -> bool {
+    &&& names_distinct(signals)
+    &&& (forall|k: int| 0 <= k < t.virtual_signals@.len() ==> !name_in(signals, (#[trigger] t.virtual_signals@[k]).0.name@))
+    &&& (forall|c: int| 0 <= c < t.signals@.len() ==> ParsedTestCase::col_bound(input_indices_spec(t.signals@, all, all.len() as int), expected_indices_spec(t.signals@, all, all.len() as int), c))
+    &&& (forall|k: int| 0 <= k < t.expected_inputs@.len() ==> input_named(all, (#[trigger] t.expected_inputs@[k]).0@))
+    &&& (forall|k: int| 0 <= k < t.read_outputs@.len() ==> output_named(all, (#[trigger] t.read_outputs@[k]).0@))
+}
+
+/// the header column an Entry index points at carries the name it was looked up by, and lies inside the header
+proof fn lemma_index_for(hdr: Seq<String>, name: Seq<char>, si: int)
+    requires hdr.len() <= usize::MAX
+    ensures match index_for(hdr, name, si) {
+        EntryIndex::Entry { entry_index, signal_index } => header_pos(hdr, name) == Some(entry_index as int) && 0 <= entry_index < hdr.len()
+            && hdr[entry_index as int]@ == name && (0 <= si <= usize::MAX ==> signal_index == si),
+        EntryIndex::Default { signal_index } => header_pos(hdr, name) is None && (0 <= si <= usize::MAX ==> signal_index == si),
+    }
+{
+    lemma_header_pos_inv(hdr, name);
+}
+
+/// with distinct header names the first column called hdr[c] is c
+proof fn lemma_header_pos_distinct(hdr: Seq<String>, c: int)
+    requires 0 <= c < hdr.len(), forall|i: int, j: int| 0 <= i < j < hdr.len() ==> (#[trigger] hdr[i])@ != (#[trigger] hdr[j])@
+    ensures header_pos(hdr, hdr[c]@) == Some(c)
+{
+    lemma_header_pos_some(hdr, hdr[c]@, c);
+}
+
+proof fn lemma_bound_indices_wf(hdr: Seq<String>, sig0: Seq<Signal>, vs0: Seq<(VirtualSignal, core::ops::Range<usize>)>, all: Seq<Signal>, inp: Seq<EntryIndex>, exp: Seq<EntryIndex>)
+    requires
+        with_virtuals(sig0, vs0, all), all.len() <= usize::MAX, hdr.len() <= usize::MAX,
+        inp == input_indices_spec(hdr, all, all.len() as int), exp == expected_indices_spec(hdr, all, all.len() as int),
+        forall|i: int| 0 <= i < sig0.len() ==> (#[trigger] sig0[i]).bits <= 64,
+    ensures wf_indices_of(all, inp, exp, hdr.len() as int)
+{
+    let n = all.len() as int; let w = hdr.len() as int;
+    lemma_input_indices_spec(hdr, all, n);
+    lemma_expected_indices_spec(hdr, all, n);
+    assert forall|k: int| 0 <= k < inp.len() implies match #[trigger] inp[k] {
+        EntryIndex::Entry { entry_index, signal_index } => entry_index < w && signal_index < all.len() && sig_is_input(all[signal_index as int]) && all[signal_index as int].bits <= 64,
+        EntryIndex::Default { signal_index } => signal_index < all.len() && sig_is_input(all[signal_index as int]),
+    } by {
+        let si = choose|si: int| 0 <= si < n && sig_is_input(all[si]) && inp[k] == index_for(hdr, all[si].name@, si);
+        lemma_index_for(hdr, all[si].name@, si);
+        if si < sig0.len() { assert(all[si] == sig0[si]); } else { assert(all[sig0.len() + (si - sig0.len())].bits == 64); }
+    }
+    assert forall|k: int| 0 <= k < exp.len() implies match #[trigger] exp[k] {
+        EntryIndex::Entry { entry_index, signal_index } => entry_index < w && signal_index < all.len() && all[signal_index as int].bits <= 64,
+        EntryIndex::Default { signal_index } => signal_index < all.len(),
+    } by {
+        let si = choose|si: int| 0 <= si < n && !(all[si].typ is Input)
+            && exp[k] == index_for(hdr, if all[si].typ is Bidirectional { all[si].name@ + "_out"@ } else { all[si].name@ }, si);
+        lemma_index_for(hdr, if all[si].typ is Bidirectional { all[si].name@ + "_out"@ } else { all[si].name@ }, si);
+        if si < sig0.len() { assert(all[si] == sig0[si]); } else { assert(all[sig0.len() + (si - sig0.len())].bits == 64); }
+    }
+}
+
+proof fn lemma_bound_c_columns(hdr: Seq<String>, ei0: Seq<(String, core::ops::Range<usize>)>, all: Seq<Signal>, inp: Seq<EntryIndex>, exp: Seq<EntryIndex>, stmts: Seq<Stmt>)
+    requires
+        all.len() <= usize::MAX, hdr.len() <= usize::MAX,
+        inp == input_indices_spec(hdr, all, all.len() as int),
+        forall|i: int, j: int| 0 <= i < j < hdr.len() ==> (#[trigger] hdr[i])@ != (#[trigger] hdr[j])@,
+        forall|k: int| 0 <= k < ei0.len() ==> input_named(all, (#[trigger] ei0[k]).0@),
+        stmts_shape(stmts, hdr.len() as int, c_col_pred(hdr, ei0)),
+    ensures stmts_shape(stmts, hdr.len() as int, inp_pred(Cols { inp, exp }))
+{
+    let n = all.len() as int; let w = hdr.len() as int;
+    let cols = Cols { inp, exp };
+    lemma_input_indices_spec(hdr, all, n);
+    assert forall|c: int| 0 <= c < w && c_col_pred(hdr, ei0)(c) implies #[trigger] inp_pred(cols)(c) by {
+        let k = choose|k: int| 0 <= k < ei0.len() && (#[trigger] ei0[k]).0@ == hdr[c]@;
+        assert(input_named(all, ei0[k].0@));
+        let si = choose|si: int| 0 <= si < all.len() && (#[trigger] all[si]).name@ == ei0[k].0@ && sig_is_input(all[si]);
+        let kk = choose|kk: int| 0 <= kk < inp.len() && (#[trigger] inp[kk]) == index_for(hdr, all[si].name@, si);
+        lemma_header_pos_distinct(hdr, c);
+        lemma_index_for(hdr, all[si].name@, si);
+        assert(inp[kk] matches EntryIndex::Entry { entry_index, signal_index } && entry_index == c);
+    }
+    lemma_stmts_shape_mono(stmts, w, c_col_pred(hdr, ei0), inp_pred(cols));
+}
+
+proof fn lemma_bound_disjoint(hdr: Seq<String>, sig0: Seq<Signal>, vs0: Seq<(VirtualSignal, core::ops::Range<usize>)>, all: Seq<Signal>, inp: Seq<EntryIndex>, exp: Seq<EntryIndex>)
+    requires
+        with_virtuals(sig0, vs0, all), all.len() <= usize::MAX, hdr.len() <= usize::MAX,
+        inp == input_indices_spec(hdr, all, all.len() as int), exp == expected_indices_spec(hdr, all, all.len() as int),
+        names_distinct(sig0),
+        forall|k: int| 0 <= k < vs0.len() ==> !name_in(sig0, (#[trigger] vs0[k]).0.name@),
+        forall|i: int| 0 <= i < sig0.len() ==> !((#[trigger] sig0[i]).typ is Virtual),
+        forall|i: int, j: int| 0 <= i < sig0.len() && 0 <= j < sig0.len() && sig_is_input(sig0[i]) && sig0[j].typ is Bidirectional
+            ==> (#[trigger] sig0[i]).name@ != (#[trigger] sig0[j]).name@ + "_out"@,
+    ensures forall|c: int| !((Cols { inp, exp }).col_is_input(c) && (Cols { inp, exp }).col_is_expected(c))
+{
+    let n = all.len() as int;
+    let cols = Cols { inp, exp };
+    lemma_input_indices_spec(hdr, all, n);
+    lemma_expected_indices_spec(hdr, all, n);
+    assert forall|c: int| !(cols.col_is_input(c) && cols.col_is_expected(c)) by {
+        if cols.col_is_input(c) && cols.col_is_expected(c) {
+            let k1 = choose|k1: int| 0 <= k1 < inp.len() && ((#[trigger] inp[k1]) matches EntryIndex::Entry { entry_index, signal_index } && entry_index == c);
+            let k2 = choose|k2: int| 0 <= k2 < exp.len() && ((#[trigger] exp[k2]) matches EntryIndex::Entry { entry_index, signal_index } && entry_index == c);
+            let s1 = choose|s1: int| 0 <= s1 < n && sig_is_input(all[s1]) && inp[k1] == index_for(hdr, all[s1].name@, s1);
+            let s2 = choose|s2: int| 0 <= s2 < n && !(all[s2].typ is Input)
+                && exp[k2] == index_for(hdr, if all[s2].typ is Bidirectional { all[s2].name@ + "_out"@ } else { all[s2].name@ }, s2);
+            lemma_index_for(hdr, all[s1].name@, s1);
+            lemma_index_for(hdr, if all[s2].typ is Bidirectional { all[s2].name@ + "_out"@ } else { all[s2].name@ }, s2);
+            if s1 >= sig0.len() { assert(all[sig0.len() + (s1 - sig0.len())].typ is Virtual); }
+            assert(all[s1] == sig0[s1]);
+            if all[s2].typ is Bidirectional {
+                if s2 >= sig0.len() { assert(all[sig0.len() + (s2 - sig0.len())].typ is Virtual); }
+                assert(all[s2] == sig0[s2]);
+                assert(sig0[s1].name@ != sig0[s2].name@ + "_out"@);
+            } else {
+                if s2 < sig0.len() {
+                    assert(all[s2] == sig0[s2]);
+                    assert(s1 != s2);
+                    if s1 < s2 { assert(sig0[s1].name@ != sig0[s2].name@); } else { assert(sig0[s2].name@ != sig0[s1].name@); }
+                } else {
+                    let kv = s2 - sig0.len();
+                    assert(all[sig0.len() + kv].name@ == vs0[kv].0.name@);
+                    assert(name_in(sig0, vs0[kv].0.name@));
+                }
+            }
+        }
+    }
+}
+
+proof fn lemma_bound_virtual_wf(sig0: Seq<Signal>, vs0: Seq<(VirtualSignal, core::ops::Range<usize>)>, all: Seq<Signal>)
+    requires
+        with_virtuals(sig0, vs0, all),
+        forall|i: int| 0 <= i < sig0.len() ==> !((#[trigger] sig0[i]).typ is Virtual),
+        forall|k: int| 0 <= k < vs0.len() ==> expr_wf((#[trigger] vs0[k]).0.expr),
+    ensures forall|i: int| 0 <= i < all.len() ==> ((#[trigger] all[i]).typ matches SignalType::Virtual { expr } ==> expr_wf(*expr.expr))
+{
+    assert forall|i: int| 0 <= i < all.len() implies ((#[trigger] all[i]).typ matches SignalType::Virtual { expr } ==> expr_wf(*expr.expr)) by {
+        if i >= sig0.len() { let kv = i - sig0.len(); assert(all[sig0.len() + kv].typ is Virtual); assert(expr_wf(vs0[kv].0.expr)); } else { assert(all[i] == sig0[i]); }
     }
 }
